@@ -43,6 +43,12 @@ func (q *quorumRunner) Step(line string) string {
 		q.vv = nil
 		q.cnt = nil
 		vv := b.Build() // may panic on overflow
+		// the application goes on using its builder (for the next epoch's set); the built set is immutable
+		if len(f) > 1 {
+			kv := strings.Split(f[1], ":")
+			b.Set(idx.ValidatorID(Atou(kv[0])), 0)
+			b.Set(idx.ValidatorID(Atou(kv[0])+424242), 3)
+		}
 		q.vv = vv
 		q.cnt = vv.NewCounter()
 		return fmt.Sprintf("n=%d total=%d quorum=%d", vv.Len(), vv.TotalWeight(), vv.Quorum())
